@@ -40,6 +40,13 @@ impl RegionC {
         ensures r is Ok ==> *final(w) == (CW { region_len: (at + data@.len()) as nat, ..*old(w) }) && at + data@.len() <= 0x100_0000_0000,
                 r is Err ==> *final(w) == *old(w)
     { unimplemented!() }
+    // Region::write_at(data, at) == write_with(data, Some(at), false): positional write, keeps whatever lies behind the written range
+    #[verifier::external_body]
+    pub fn write_at(&self, data: &[u8], at: usize, Tracked(w): Tracked<&mut CW>) -> (r: std::result::Result<(), RawDbErr>)
+        requires at <= old(w).region_len
+        ensures r is Ok ==> *final(w) == (CW { region_len: (if at + data@.len() > old(w).region_len { (at + data@.len()) as nat } else { old(w).region_len }), ..*old(w) }) && at + data@.len() <= 0x100_0000_0000,
+                r is Err ==> *final(w) == *old(w)
+    { unimplemented!() }
 }
 impl ReaderC {
     // Reader::unchecked_read(offset, len): a slice of the mmap; C20: must lie inside the region's data
